@@ -36,6 +36,7 @@ type fileCtx struct {
 	edits   []edit
 	touched map[string]string // import local name -> dummy use
 	counts  map[string]int
+	reinit  []string // assignments re-creating package-level channels
 }
 
 type stats struct {
@@ -217,6 +218,9 @@ func (fc *fileCtx) write() error {
 		tail += "var _ = " + fc.touched[n] + "\n"
 	}
 	tail += "var _ = simrt.Yield\n"
+	if len(fc.reinit) > 0 {
+		tail += "func init() { simrt.OnBegin(func() { " + strings.Join(fc.reinit, "; ") + " }) }\n"
+	}
 	sort.SliceStable(fc.edits, func(i, j int) bool {
 		a, b := fc.edits[i], fc.edits[j]
 		if a.pos != b.pos {
@@ -484,6 +488,43 @@ func (fc *fileCtx) instrument(info *types.Info, pkg *types.Package, tick bool) {
 	touch := func(x ast.Expr, dummy string) {
 		if id, ok := x.(*ast.Ident); ok {
 			fc.touched[id.Name] = id.Name + "." + dummy
+		}
+	}
+	// package-level variables initialised with make(chan ...): re-created at the
+	// start of every simulated run (simrt.OnBegin), inside the bubble
+	for _, d := range fc.file.Decls {
+		gd, ok := d.(*ast.GenDecl)
+		if !ok || gd.Tok != token.VAR {
+			continue
+		}
+		for _, sp := range gd.Specs {
+			vs, ok := sp.(*ast.ValueSpec)
+			if !ok || len(vs.Names) != len(vs.Values) {
+				continue
+			}
+			for i, val := range vs.Values {
+				call, ok := val.(*ast.CallExpr)
+				if !ok {
+					continue
+				}
+				id, ok := call.Fun.(*ast.Ident)
+				if !ok || id.Name != "make" || len(call.Args) == 0 {
+					continue
+				}
+				if _, isCh := call.Args[0].(*ast.ChanType); !isCh {
+					continue
+				}
+				if vs.Names[i].Name == "_" {
+					continue
+				}
+				expr := fc.text(val.Pos(), val.End())
+				expr = strings.Replace(expr, "runtime.NumCPU()", "simrt.NumCPU()", -1)
+				expr = strings.Replace(expr, "runtime.GOMAXPROCS(0)", "simrt.NumCPU()", -1)
+				fc.reinit = append(fc.reinit, vs.Names[i].Name+" = "+expr)
+				fc.count("pkgchan")
+				// make sure the file is rewritten even if nothing else changes
+				fc.ins(fc.file.End(), "", 0)
+			}
 		}
 	}
 	rangeChanBodies := map[*ast.BlockStmt]bool{}
